@@ -85,7 +85,7 @@ pub const COUNTS_THOROUGH: [usize; 22] = [
     131072, 131073,
 ];
 
-fn block_on<F: std::future::Future>(f: F) -> F::Output {
+pub fn block_on<F: std::future::Future>(f: F) -> F::Output {
     thread_local! {
         static RT: tokio::runtime::Runtime = tokio::runtime::Builder::new_current_thread().build().expect("tokio runtime");
     }
